@@ -23,28 +23,26 @@ Fixpoint entries_sorted (fs : list field) (prev : Z) (d : dmsg) : Prop :=
       entries_sorted fs k r
   end.
 
-Section Ok.
-  Variable Sc : schema.
-
-  Fixpoint dmsg_ok (n : nat) (mi : nat) (d : dmsg) : Prop :=
-    match n with
-    | O => False
-    | S n' =>
-        exists m, nth_error Sc mi = Some m /\
-          entries_sorted (mfields m) 0 d /\
-          Forall (fun e : Z * dval =>
-                    exists fd, find_field (mfields m) (fst e) = Some fd /\
-                      match wire_of_kind (fkind fd), fkind fd, snd e with
-                      | WVarint, _, DVar z => 0 <= z < two64
-                      | WI64, _, DFix raw => length raw = 8%nat
-                      | WI32, _, DFix raw => length raw = 4%nat
-                      | WLen, KMessage mi', DMsg d' =>
-                          dmsg_ok n' mi' d' /\ Z.of_nat (length (canon Sc mi' d')) < two32
-                      | WLen, KString, DBytes b | WLen, KBytes, DBytes b => Z.of_nat (length b) < two32
-                      | _, _, _ => False
-                      end) d
+(* one entry: its field exists and the value has the shape and range of the field's kind *)
+Definition entry_ok (Sc : schema) (P : nat -> dmsg -> Prop) (fs : list field) (e : Z * dval) : Prop :=
+  exists fd, find_field fs (fst e) = Some fd /\
+    match wire_of_kind (fkind fd), fkind fd, snd e with
+    | WVarint, _, DVar z => 0 <= z < two64
+    | WI64, _, DFix raw => length raw = 8%nat
+    | WI32, _, DFix raw => length raw = 4%nat
+    | WLen, KMessage mi', DMsg d' => P mi' d' /\ Z.of_nat (length (canon Sc mi' d')) < two32
+    | WLen, KString, DBytes b | WLen, KBytes, DBytes b => Z.of_nat (length b) < two32
+    | _, _, _ => False
     end.
-End Ok.
+
+Fixpoint dmsg_ok (Sc : schema) (n : nat) (mi : nat) (d : dmsg) : Prop :=
+  match n with
+  | O => False
+  | S n' =>
+      exists m, nth_error Sc mi = Some m /\
+        entries_sorted (mfields m) 0 d /\
+        Forall (entry_ok Sc (dmsg_ok Sc n') (mfields m)) d
+  end.
 
 (* ---- the canonical bytes of a sorted message are its entries, one tag/value pair each ---- *)
 
@@ -218,3 +216,164 @@ Section Flat.
         exists fd. split; [assumption | left; assumption].
   Qed.
 End Flat.
+
+(* ---- entries as tag/value pairs ---- *)
+
+Lemma wire_eqb_refl : forall w, wire_eqb w w = true.
+Proof. destruct w; reflexivity. Qed.
+
+Lemma entry_enc_tlv : forall Sc P fs e, entry_ok Sc P fs e ->
+  enc_entry Sc fs e = encode_tlv (tlv_of Sc fs e).
+Proof.
+  intros Sc P fs [k v] [fd [Hfd Hs]]. cbn [fst snd] in *.
+  unfold enc_entry, tlv_of, encode_tlv. cbn [fst snd tnum twire tval]. rewrite Hfd. cbn [tnum twire tval].
+  unfold emit_field.
+  destruct (wire_of_kind (fkind fd)) eqn:Ew; destruct (fkind fd) eqn:Ek; cbn in Ew; try discriminate;
+    destruct v; try contradiction; cbn [raw_of_dval wval_of_dval encode_wval flat_map length Nat.ltb Nat.leb];
+    rewrite ?app_nil_r; reflexivity.
+Qed.
+
+Lemma entry_tlv_ok : forall Sc P fs e, entry_ok Sc P fs e -> 1 <= fst e < 536870912 -> tlv_ok (tlv_of Sc fs e).
+Proof.
+  intros Sc P fs [k v] [fd [Hfd Hs]] Hk. cbn [fst snd] in *.
+  unfold tlv_of, tlv_ok. cbn [fst snd]. rewrite Hfd. cbn [tnum twire tval]. split; [assumption|].
+  destruct (wire_of_kind (fkind fd)) eqn:Ew; destruct (fkind fd) eqn:Ek; cbn in Ew; try discriminate;
+    destruct v; try contradiction; cbn [wval_of_dval wval_ok]; try assumption.
+  destruct Hs as [_ Hl]. exact Hl.
+Qed.
+
+Lemma flat_enc_tlvs : forall Sc P fs d, Forall (entry_ok Sc P fs) d ->
+  flat_map (enc_entry Sc fs) d = encode_tlvs (map (tlv_of Sc fs) d).
+Proof.
+  intros Sc P fs d H. induction H as [|e d He Hr IH]; [reflexivity|].
+  cbn [flat_map map encode_tlvs]. fold (encode_tlvs (map (tlv_of Sc fs) d)).
+  rewrite (entry_enc_tlv _ _ _ _ He), IH. reflexivity.
+Qed.
+
+Lemma denote_entries : forall Sc P (rec : nat -> bytes -> option dmsg) fs d,
+  forallb field_canonical_ok fs = true ->
+  Forall (entry_ok Sc P fs) d ->
+  Forall (fun e : Z * dval =>
+            forall fd mi' d', find_field fs (fst e) = Some fd -> fkind fd = KMessage mi' -> snd e = DMsg d' ->
+                              rec mi' (canon Sc mi' d') = Some d') d ->
+  denote_tlvs rec fs (map (tlv_of Sc fs) d) = Some d.
+Proof.
+  intros Sc P rec fs d Hcan H Hrec. induction H as [|[k v] d [fd [Hfd Hs]] Hr IH]; [reflexivity|].
+  inversion Hrec as [|? ? Hrec1 Hrec2]; subst. cbn [fst snd] in *.
+  assert (Ht : tlv_of Sc fs (k, v) =
+               {| tnum := k; twire := wire_of_kind (fkind fd); tval := wval_of_dval Sc (fkind fd) v |})
+    by (unfold tlv_of; cbn [fst snd]; rewrite Hfd; reflexivity).
+  cbn [map denote_tlvs]. rewrite Ht. cbn [tnum]. rewrite Hfd.
+  assert (Hok : field_canonical_ok fd = true).
+  { rewrite forallb_forall in Hcan. apply Hcan. eapply find_field_in. eassumption. }
+  rewrite Hok. cbn [negb]. rewrite (IH Hrec2).
+  pose proof (find_field_num _ _ _ Hfd) as Hn.
+  unfold denote_tlv. cbn [twire tval]. rewrite wire_eqb_refl. rewrite Hn.
+  destruct (wire_of_kind (fkind fd)) eqn:Ew; destruct (fkind fd) eqn:Ek; cbn in Ew; try discriminate;
+    destruct v; try contradiction; cbn [wval_of_dval dval_of_wval]; try reflexivity.
+  change (raw_of_dval Sc (KMessage idx) (DMsg es)) with (canon Sc idx es).
+  rewrite (Hrec1 fd idx es Hfd Ek eq_refl). reflexivity.
+Qed.
+
+(* ---- sizes ---- *)
+
+Lemma flat_map_length_in : forall (A : Type) (f : A -> bytes) (l : list A) (a : A),
+  In a l -> (length (f a) <= length (flat_map f l))%nat.
+Proof.
+  intros A f l a H. induction l as [|x l IH]; [contradiction|].
+  cbn [flat_map]. rewrite app_length. destruct H as [->|H]; [lia | specialize (IH H); lia].
+Qed.
+
+Lemma enc_entry_msg_length : forall Sc fs k fd mi' d',
+  find_field fs k = Some fd -> fkind fd = KMessage mi' ->
+  (length (canon Sc mi' d') + 2 <= length (enc_entry Sc fs (k, DMsg d')))%nat.
+Proof.
+  intros Sc fs k fd mi' d' Hfd Hk. unfold enc_entry. cbn [fst snd]. rewrite Hfd, Hk.
+  unfold emit_field. cbn [wire_of_kind flat_map]. rewrite app_nil_r.
+  unfold encode_tag, encode_len_delim. rewrite !app_length.
+  change (raw_of_dval Sc (KMessage mi') (DMsg d')) with (canon Sc mi' d').
+  pose proof (encode_varint_length (k * 8 + wire_raw WLen)).
+  pose proof (encode_varint_length (Z.of_nat (length (canon Sc mi' d')))). lia.
+Qed.
+
+(* ---- schema facts ---- *)
+
+Lemma schema_nth_forallb : forall (Sc : schema) (f : message -> bool) mi m,
+  forallb f Sc = true -> nth_error Sc mi = Some m -> f m = true.
+Proof.
+  intros Sc f mi m H Hn. rewrite forallb_forall in H. apply H. eapply nth_error_In. eassumption.
+Qed.
+
+Lemma field_range : forall Sc mi m k fd, schema_wf Sc = true -> nth_error Sc mi = Some m ->
+  find_field (mfields m) k = Some fd -> 1 <= k < 536870912.
+Proof.
+  intros Sc mi m k fd Hwf Hn Hfd. unfold schema_wf in Hwf.
+  pose proof (schema_nth_forallb Sc _ mi m Hwf Hn) as Hm. unfold message_wf in Hm.
+  apply andb_true_iff in Hm. destruct Hm as [Hm _]. rewrite forallb_forall in Hm.
+  pose proof (find_field_in _ _ _ Hfd) as Hin. specialize (Hm fd Hin). unfold field_wf in Hm.
+  apply andb_true_iff in Hm. destruct Hm as [Hm _]. apply andb_true_iff in Hm. destruct Hm as [H1 H2].
+  apply Z.leb_le in H1. apply Z.ltb_lt in H2. pose proof (find_field_num _ _ _ Hfd). lia.
+Qed.
+
+(* ---- the theorem ---- *)
+
+Theorem denote_canon_fuel : forall Sc, schema_wf Sc = true -> schema_canonical_ok Sc = true ->
+  schema_unpacked Sc = true ->
+  forall n mi d f, dmsg_ok Sc n mi d -> (length (canon Sc mi d) < f)%nat ->
+  denote_fuel f Sc mi (canon Sc mi d) = Some d.
+Proof.
+  intros Sc Hwf Hcan Hunp. induction n as [|n IH]; intros mi d f Hok Hf; [contradiction|].
+  cbn [dmsg_ok] in Hok. destruct Hok as [m [Hn [Hsorted Hent]]].
+  destruct f as [|f]; [lia|]. cbn [denote_fuel]. rewrite Hn.
+  pose proof (schema_nth_forallb Sc _ mi m Hcan Hn) as Hmc. unfold message_canonical_ok in Hmc.
+  apply andb_true_iff in Hmc. destruct Hmc as [H3 Hfc]. rewrite H3. cbn [negb].
+  pose proof (schema_nth_forallb Sc _ mi m Hunp Hn) as Hmu.
+  assert (Hfind : Forall (fun e : Z * dval => exists fd, find_field (mfields m) (fst e) = Some fd) d).
+  { eapply Forall_impl; [|exact Hent]. intros e [fd [Hfd _]]. exists fd. exact Hfd. }
+  assert (Hbytes : canon Sc mi d = encode_tlvs (map (tlv_of Sc (mfields m)) d)).
+  { rewrite (canon_unfold Sc mi m d Hn). rewrite group_raw_fold.
+    rewrite (emit_sorted Sc (mfields m) Hmu d 0 []); [| left; constructor | exact Hsorted | exact Hfind].
+    cbn [emit_pure app]. apply (flat_enc_tlvs Sc (dmsg_ok Sc n)). exact Hent. }
+  rewrite Hbytes at 1. rewrite tlv_roundtrip.
+  2:{ clear - Hent Hwf Hn. induction Hent as [|e d He Hr IHe]; [constructor|]. cbn [map]. constructor; [|assumption].
+      eapply entry_tlv_ok; [exact He|]. destruct He as [fd [Hfd _]]. eapply field_range; eassumption. }
+  rewrite (denote_entries Sc (dmsg_ok Sc n) (denote_fuel f Sc) (mfields m) d Hfc Hent).
+  - (* singular_ok *)
+    assert (Hsing : singular_ok (mfields m) d = true).
+    { unfold singular_ok, shape. rewrite group_raw_fold.
+      apply (shape_step_ok (mfields m) _ d 0 []); try assumption.
+      - left. constructor.
+      - intros k vs [fd [Hfd Hc]]. cbn [fst snd]. rewrite Hfd.
+        destruct Hc as [Hc|Hc]; [rewrite Hc; reflexivity | rewrite Hc; apply orb_true_r].
+      - reflexivity.
+      - intros fm0 vs Heq. destruct fm0; discriminate. }
+    rewrite Hsing. reflexivity.
+  - (* children *)
+    rewrite Forall_forall. intros [k v] Hin fd mi' d' Hfd Hk Hv. cbn [fst snd] in *. subst v.
+    rewrite Forall_forall in Hent. destruct (Hent _ Hin) as [fd' [Hfd' Hs]]. cbn [fst snd] in *.
+    assert (fd' = fd) by congruence. subst fd'. rewrite Hk in Hs. cbn [wire_of_kind] in Hs.
+    destruct Hs as [Hchild _].
+    apply IH; [exact Hchild|].
+    pose proof (enc_entry_msg_length Sc (mfields m) k fd mi' d' Hfd Hk) as Hl.
+    pose proof (flat_map_length_in _ (enc_entry Sc (mfields m)) d _ Hin) as Hl2.
+    assert (Hc : canon Sc mi d = flat_map (enc_entry Sc (mfields m)) d).
+    { rewrite (canon_unfold Sc mi m d Hn). rewrite group_raw_fold.
+      rewrite (emit_sorted Sc (mfields m) Hmu d 0 []); [reflexivity | left; constructor | exact Hsorted | exact Hfind]. }
+    rewrite Hc in Hf. lia.
+Qed.
+
+(* the canonical bytes of a well-formed sorted value read back as exactly that value *)
+Theorem denote_canon : forall Sc, schema_wf Sc = true -> schema_canonical_ok Sc = true ->
+  schema_unpacked Sc = true ->
+  forall n mi d, dmsg_ok Sc n mi d -> denote Sc mi (canon Sc mi d) = Some d.
+Proof.
+  intros Sc Hwf Hcan Hunp n mi d Hok. unfold denote. eapply denote_canon_fuel; try eassumption. lia.
+Qed.
+
+(* ... hence canonical bytes are a fixed point of canonical_raw *)
+Theorem canonical_idempotent : forall Sc, schema_wf Sc = true -> schema_canonical_ok Sc = true ->
+  schema_unpacked Sc = true ->
+  forall n mi d, dmsg_ok Sc n mi d -> canonical_raw Sc mi (canon Sc mi d) = Ok (canon Sc mi d).
+Proof.
+  intros Sc Hwf Hcan Hunp n mi d Hok. apply canonical_normalises. eapply denote_canon; eassumption.
+Qed.
